@@ -362,8 +362,36 @@ fn consumer_family(ctx: &mut Ctx, ps: &mut Parsers) {
     }
 }
 
+/// Under Miri (undefined-behaviour interpreter): the slice of the workload that reaches `unsafe` code of the
+/// dependencies — YAML front matter (unsafe-libyaml), small vectors and hash maps of the parser and analysis —
+/// with every guarded operation, on small inputs only (one operation costs 0.05-0.5 s there).
+fn miri_slice(ctx: &mut Ctx, ps: &mut Parsers) {
+    let scale: usize = std::env::var("VERIF_SCALE").ok().and_then(|s| s.parse().ok()).unwrap_or(1);
+    let mut inputs: Vec<String> = targeted().into_iter().filter(|s| s.len() < 160 && (s.starts_with("---") || s.contains('\\') || s.contains("[mode]") || s.contains('('))).collect();
+    inputs.extend(CONSUMER_FRAGMENTS.chunks(6).map(|c| c.join(" ")));
+    let all = Extensions::all().bits();
+    let mut k = 0u64;
+    let mut done = 0usize;
+    for input in &inputs {
+        k += 1;
+        if !ctx.mine(k) {
+            continue;
+        }
+        if done >= 6 * scale {
+            break;
+        }
+        done += 1;
+        check_case(ctx, ps, &Case::new("miri", input.as_str(), all, "bundled"));
+        ctx.count("inputs_miri");
+    }
+}
+
 pub fn run(ctx: &mut Ctx) {
     let mut ps = Parsers::new();
+    if std::env::var("VERIF_MIRI").is_ok() {
+        miri_slice(ctx, &mut ps);
+        return;
+    }
     consumer_family(ctx, &mut ps);
     // targeted family under four configs
     let t = targeted();
